@@ -48,3 +48,65 @@ func vK08aMangle() {
 	vAssert(a1 == a2 && b1 == b2, "mangled names do not depend on raw source indices or on map iteration order")
 	vReach("end")
 }
+
+// K08a-rename: the names renameSymbolsInChunk gives to symbols imported from
+// other chunks (and to the chunk's own top-level symbols) do not depend on the
+// raw source indices of the declaring files nor on map iteration order.
+// Two library files declare a symbol with the same original name; a third
+// file in the chunk under test imports both (and declares the same name
+// itself), so the collision counter decides who becomes value / value2 / value3.
+
+func hRenameRun(swap bool, twoChunks bool, ownName string) (string, string, string) {
+	c := hCtx(3, 4)
+	rawA, rawB := uint32(1), uint32(2)
+	if swap {
+		rawA, rawB = 2, 1
+	}
+	const rawF = 3
+	syms := ast.NewSymbolMap(4)
+	syms.SymbolsForSource[rawA] = []ast.Symbol{{OriginalName: "value", Link: ast.InvalidRef, Kind: ast.SymbolHoisted}}
+	syms.SymbolsForSource[rawB] = []ast.Symbol{{OriginalName: "value", Link: ast.InvalidRef, Kind: ast.SymbolHoisted}}
+	syms.SymbolsForSource[rawF] = []ast.Symbol{{OriginalName: ownName, Link: ast.InvalidRef, Kind: ast.SymbolHoisted}}
+	syms.SymbolsForSource[0] = []ast.Symbol{}
+	c.graph.Symbols = syms
+	refA := ast.Ref{SourceIndex: rawA, InnerIndex: 0}
+	refB := ast.Ref{SourceIndex: rawB, InnerIndex: 0}
+	refF := ast.Ref{SourceIndex: rawF, InnerIndex: 0}
+	for _, raw := range []uint32{0, rawA, rawB, rawF} {
+		repr := &graph.JSRepr{}
+		repr.AST.ModuleScope = &js_ast.Scope{Members: map[string]js_ast.ScopeMember{}}
+		c.graph.Files[raw].InputFile.Repr = repr
+	}
+	reprF := c.graph.Files[rawF].InputFile.Repr.(*graph.JSRepr)
+	reprF.AST.ModuleScope.Members[ownName] = js_ast.ScopeMember{Ref: refF}
+	reprF.AST.Parts = []js_ast.Part{{IsLive: true, DeclaredSymbols: []js_ast.DeclaredSymbol{{Ref: refF, IsTopLevel: true}}}}
+	c.graph.ReachableFiles = []uint32{0, rawA, rawB, rawF}
+	c.graph.StableSourceIndices = make([]uint32, 4)
+	c.graph.StableSourceIndices[rawA] = 1
+	c.graph.StableSourceIndices[rawB] = 2
+	c.graph.StableSourceIndices[rawF] = 3
+	chunkRepr := &chunkReprJS{importsFromOtherChunks: map[uint32]crossChunkImportItemArray{}}
+	if twoChunks {
+		chunkRepr.importsFromOtherChunks[1] = crossChunkImportItemArray{{ref: refA}}
+		chunkRepr.importsFromOtherChunks[2] = crossChunkImportItemArray{{ref: refB}}
+	} else {
+		// the order inside one chunk's list is by export alias, which is fixed
+		chunkRepr.importsFromOtherChunks[1] = crossChunkImportItemArray{{ref: refB}, {ref: refA}}
+	}
+	chunk := &c.chunks[0]
+	chunk.chunkRepr = chunkRepr
+	vSymMapOrder(true)
+	r := c.renameSymbolsInChunk(chunk, []uint32{rawF}, nil)
+	vSymMapOrder(false)
+	return r.NameForSymbol(refA), r.NameForSymbol(refB), r.NameForSymbol(refF)
+}
+
+func vK08aRename() {
+	two := vBool()
+	own := []string{"value", "other"}[vChoose(2)]
+	a1, b1, f1 := hRenameRun(false, two, own)
+	a2, b2, f2 := hRenameRun(true, two, own)
+	vAssert(a1 != b1 && a1 != f1 && b1 != f1, "colliding top-level names are made distinct")
+	vAssert(a1 == a2 && b1 == b2 && f1 == f2, "names given to cross-chunk imports do not depend on raw source indices (arrival order) or map iteration order")
+	vReach("end")
+}
